@@ -164,3 +164,21 @@ Proof.
   intros cf q Hok Hq. destruct (quantize_is_rdiv_proof cf q Hok Hq) as [dv [Hs Hx]].
   exists dv. split; [exact Hs|]. intros x Hxr. rewrite Hx by exact Hxr. apply rdiv_error. lia.
 Qed.
+
+(* jsimd_quantize (the routine the 8-bit SIMD build really runs whenever every
+   compute_reciprocal call returned 1) computes the same round-half-up quotient *)
+Theorem simd_quantize_exact_proof : forall cf d rc,
+  c_dw cf = 16 -> c_simd cf = true -> 1 <= d <= 65535 ->
+  compute_reciprocal cf d = Some rc -> r_ret rc = 1 ->
+  forall x, -32767 <= x <= 32767 -> quantize_simd_one rc x = rdiv x d.
+Proof.
+  intros cf d rc HW Hs Hd Hrc Hret.
+  assert (E : compute_reciprocal cf d = compute_reciprocal cf16 d)
+    by (apply compute_reciprocal_ext; [rewrite HW|rewrite Hs]; reflexivity).
+  rewrite E in Hrc.
+  apply (recip_cert_simd_sound cf16 d rc); try assumption; try reflexivity; try lia.
+  - left; reflexivity.
+  - destruct (Z_lt_ge_dec d 32768).
+    + apply (sweep_sound _ _ _ recip_cert_16_a). lia.
+    + apply (sweep_sound _ _ _ recip_cert_16_b). lia.
+Qed.
